@@ -451,7 +451,15 @@ class Body:
                 elif "idx" in p or "cidx" in p:
                     base = ("index", base)
                 elif "dc" in p:
-                    base = ("variant", base, p["dc"])
+                    # downcast of a value built from known enum constructors: pick the constructor of that variant
+                    sel = None
+                    cands = base[1] if isinstance(base, tuple) and base[0] == "phi" else [base]
+                    aggs = [x for x in cands if isinstance(x, tuple) and x[0] == "agg" and isinstance(x[1], str)]
+                    if aggs and len(aggs) == len(cands):
+                        m = [x for x in aggs if x[1].split("::")[-1] == p["dc"]]
+                        if len(m) == 1:
+                            sel = m[0]
+                    base = sel if sel is not None else ("variant", base, p["dc"])
                 elif "sub" in p:
                     base = ("subslice", base)
         return base
@@ -681,8 +689,23 @@ def role_calls(r):
     return [x for x in role_walk(r) if isinstance(x, tuple) and x[0] == "call"]
 
 
+_ANCHORS = None
+
+
+def _anchors():
+    global _ANCHORS
+    if _ANCHORS is None:
+        import json, os
+        p = os.path.join(os.path.dirname(os.path.dirname(os.path.abspath(__file__))), "anchors.json")
+        try:
+            _ANCHORS = json.load(open(p))
+        except Exception:
+            _ANCHORS = {}
+    return _ANCHORS
+
+
 class Crate:
-    def __init__(self, j, strip_prefix=None):
+    def __init__(self, j, strip_prefix=None, use_anchors=True):
         if strip_prefix:
             j = json.loads(json.dumps(j).replace(strip_prefix, ""))
         self.j = j
@@ -698,11 +721,45 @@ class Crate:
             if b.name:
                 self.by_name[b.name].append(b)
         self._link_closures()
+        self.aliases = {}
+        if use_anchors and self.name == "slotted_egraphs":
+            self._inject_aliases()
         self.adts = {a["path"]: a for a in j["adts"]}
         self.impls = j["impls"]
         self.statics = j["statics"]
         self.unsafe = j["unsafe"]
         self._cache = {}
+
+    def _inject_aliases(self):
+        """a function recorded in anchors.json that no longer exists under its name in its file, while exactly one
+        function of that file with a new name has the same parameter and return types: it was renamed / moved between a
+        free function and an impl block.  Register it under the old name as well (rules address functions by the names
+        of the reviewed tree)."""
+        self.aliases = {}
+        table = _anchors()
+        by_file = defaultdict(list)
+        for b in self.bodies.values():
+            if b.kind != "Closure" and b.name and (b.file or "").startswith("src/") and not b.auto_derived:
+                by_file[b.file].append(b)
+        known = defaultdict(set)
+        for k in table:
+            f, n = k.rsplit("::", 1)
+            known[f].add(n)
+        for k, sig in table.items():
+            f, n = k.rsplit("::", 1)
+            bs = by_file.get(f)
+            if not bs or any(b.name == n for b in bs):
+                continue
+            cands = [b for b in bs if b.name not in known[f] and [b.local_ty(l) for l in range(1, b.argc + 1)] + ["->", b.local_ty(0)] == sig]
+            if len(cands) == 1:
+                self.by_name[n].append(cands[0])
+                self.aliases[cands[0].id] = n
+        if self.aliases:
+            # call sites of a renamed function are seen under the old name as well
+            for b in self.bodies.values():
+                for c in b.calls:
+                    if c.callee is not None and c.callee.target in self.aliases:
+                        c.callee.name = self.aliases[c.callee.target]
 
     def _link_closures(self):
         for b in self.bodies.values():
@@ -740,6 +797,9 @@ class Crate:
         for b in self.by_name.get(name, []):
             if b.kind == "Closure":
                 continue
+            if self.aliases.get(b.id) == name:
+                out.append(b)      # renamed / moved: found again by its signature
+                continue
             if self_ty_contains is not None and self_ty_contains not in (b.impl_self or ""):
                 continue
             if trait is not None and trait not in (b.impl_trait or ""):
@@ -756,7 +816,7 @@ class Crate:
         return m[0]
 
     def free_fn(self, name, path_contains=None):
-        out = [b for b in self.by_name.get(name, []) if b.kind == "Fn" and (path_contains is None or path_contains in b.id)]
+        out = [b for b in self.by_name.get(name, []) if (b.kind == "Fn" or self.aliases.get(b.id) == name) and b.kind != "Closure" and (path_contains is None or path_contains in b.id or self.aliases.get(b.id) == name)]
         return out
 
     # ---------------------------------------------------------------- field access census
